@@ -504,12 +504,17 @@ void band_update_stats(band_state *band) {
     }
 
     if (band->r > 0 && band->begun) {
-        uint32_t r_pow_beta = band->r;
+        /* 64-bit and saturating at NMAX after every step, so that a large r
+         * cannot wrap the product around to a small Ni */
+        uint64_t r_pow_beta = band->r;
         for (int i = 1; i < BAND_BETA; i++) {
             r_pow_beta *= band->r;
+            if (r_pow_beta > BAND_NMAX) {
+                r_pow_beta = BAND_NMAX;
+            }
         }
-        uint32_t new_ni = BAND_ALPHA * r_pow_beta;
-        band->Ni = (new_ni > BAND_NMAX) ? BAND_NMAX : new_ni;
+        uint64_t new_ni = (uint64_t)BAND_ALPHA * r_pow_beta;
+        band->Ni = (new_ni > BAND_NMAX) ? BAND_NMAX : (uint32_t)new_ni;
     }
 
     band->r = 0;
